@@ -80,6 +80,19 @@ func drawC12(t *rapid.T) c12Scenario {
 		sc.Entry = "lead"
 	case 2:
 		sc.Shape = "ll-hint-stall"
+	case 3:
+		// MPEG-TS whose last segment ends with an audio frame that does not decode: the demuxer
+		// reports it through OnDecodeError (a slow callback here) right before the stream ends
+		sc.Shape = "ts-bad-adts"
+		var sd cli.StreamDef
+		sd.Container = "mpegts"
+		sd.VOD = true
+		sd.Lead.Tracks = []cli.TrackDef{{Codec: "h264", TimeScale: 90000, SampleDur: 900}, {Codec: "aac", TimeScale: 90000, SampleDur: 900}}
+		for i := 0; i < 3; i++ {
+			sd.Lead.Segs = append(sd.Lead.Segs, cli.SegShape{Date: true, Frags: [][]int{{3}, {4}}})
+		}
+		sc.Stream = sd
+		sc.Entry = "lead"
 	}
 	switch sc.Inject {
 	case "close-at-request":
@@ -115,6 +128,14 @@ func execC12(sc c12Scenario) core.Outcome {
 		o.Skip = true
 		return o
 	}
+	if sc.Shape == "ts-bad-adts" {
+		u := b.Lead.SegURIs[len(b.Lead.SegURIs)-1]
+		for _, nth := range []int{3, 2} { // the last audio frames of the last segment
+			if c, ok := breakADTS(b.Files[u], nth); ok {
+				b.Files[u] = c
+			}
+		}
+	}
 	srv := serveStatic(b)
 	srv.TransportErr = errOfKind(sc.ErrKind, "injected transport error")
 	onTracksErr := errOfKind(sc.ErrKind, errOnTracks.Error())
@@ -123,6 +144,9 @@ func execC12(sc c12Scenario) core.Outcome {
 		uri = "http://stream.test/index.m3u8"
 	}
 	opts := cli.RunOpts{URI: uri, Server: srv, CloseAtRequest: -1, CloseCalls: sc.CloseCalls, MaxWait: 8 * time.Second}
+	if sc.Shape == "ts-bad-adts" {
+		opts.DecodeErrDelay = 60 * time.Millisecond
+	}
 	label := sc.Inject
 	if sc.Shape != "" {
 		o.Labels = append(o.Labels, "shape:"+sc.Shape)
